@@ -80,8 +80,13 @@ struct ReplayFile {
     violation: Violation,
     minimised: bool,
     minimisation_attempts: u64,
+    /// plans executed on the same thread, in order, before `plan` (empty: `plan` fails alone)
+    #[serde(default)]
+    history: Vec<Plan>,
     plan: Plan,
     original_plan: Option<Plan>,
+    #[serde(default)]
+    note: String,
 }
 
 struct Args {
@@ -243,6 +248,12 @@ fn cmd_replay(args: &Args) -> i32 {
         rf.property, rf.violation.class, rf.origin, rf.base_seed, rf.index
     );
     let mut stats = Stats::default();
+    if !rf.history.is_empty() {
+        println!("replay: executing {} earlier run(s) of the same thread first", rf.history.len());
+    }
+    for h in &rf.history {
+        let _ = run::execute(h, None, &mut stats);
+    }
     let out = run::execute(&rf.plan, None, &mut stats);
     if !out.built {
         println!("replay: the recorded value can no longer be constructed on this tree; nothing to check");
@@ -323,7 +334,7 @@ fn cmd_check(args: &Args) -> i32 {
     let en = if args.fault_free_only || args.no_enum {
         sim::BatchResult { stats: Stats::default(), found: vec![], samples: vec![], executed: 0, digests: vec![] }
     } else {
-        sim::run_enumeration(values, args.workers)
+        sim::run_enumeration(&values, args.workers)
     };
     let enum_s = t1.elapsed().as_secs_f64();
     println!(
@@ -402,19 +413,29 @@ fn cmd_check(args: &Args) -> i32 {
             continue;
         }
         seen_classes.push(f.violation.class.clone());
-        let (min_plan, attempts) = sim::minimise(&f.plan, &f.violation.class);
-        // re-run the minimised plan to get the final wording of the violation
-        let mut scratch = Stats::default();
-        let out = run::execute(&min_plan, None, &mut scratch);
-        let v = out
-            .violations
-            .iter()
-            .find(|v| v.class == f.violation.class)
-            .cloned()
-            .unwrap_or_else(|| f.violation.clone());
-        // a minimised case that turns out to be a known finding stays suppressed
-        if open.iter().any(|k| k.matches(prop.id(), &v)) && !open.iter().any(|k| k.matches(prop.id(), &f.violation)) {
-            // the original was not known but shrank into a known one: report the original instead
+        let ctx = sim::ReproCtx {
+            prop,
+            search_base: args.seed,
+            fault_free_base: args.seed ^ 0xFF00_FF00,
+            fault_free_only: args.fault_free_only,
+            enum_values: &values,
+        };
+        let repro = sim::reproduce(f, &ctx);
+        // re-run to get the final wording of the violation
+        let v = sim::in_fresh_thread(|| {
+            let mut scratch = Stats::default();
+            for h in &repro.history {
+                let _ = run::execute(h, None, &mut scratch);
+            }
+            run::execute(&repro.plan, None, &mut scratch)
+        })
+        .violations
+        .iter()
+        .find(|v| v.class == f.violation.class)
+        .cloned()
+        .unwrap_or_else(|| f.violation.clone());
+        if !repro.note.is_empty() {
+            println!("note: {} - {}", f.violation.class, repro.note);
         }
         let rf = ReplayFile {
             property: prop.id().to_string(),
@@ -422,10 +443,12 @@ fn cmd_check(args: &Args) -> i32 {
             base_seed: args.seed,
             index: f.index,
             violation: v.clone(),
-            minimised: min_plan != f.plan,
-            minimisation_attempts: attempts,
-            plan: min_plan,
+            minimised: repro.plan != f.plan,
+            minimisation_attempts: repro.attempts,
+            history: repro.history,
+            plan: repro.plan,
             original_plan: Some(f.plan.clone()),
+            note: repro.note,
         };
         let path = args.replay_dir.join(format!(
             "{}-{}-{}-{}.json",
